@@ -234,6 +234,23 @@ def cycle_loops(fi: FunctionInfo, ctx=None) -> List[Dict]:
                                     and isinstance(b.value, ast.Constant) and b.value.value == 0 for b in pif.body)
                     if then_zero:
                         wrap_if = _is_last(pif.test, i)
+                # reset idiom:  local = i + 1  immediately followed by  `if local == N: local = 0`  (or >=)
+                if wrap_if is None:
+                    blk = None
+                    pp = par.get(id(stmt))
+                    for fld in ("body", "orelse", "finalbody"):
+                        L = getattr(pp, fld, None)
+                        if isinstance(L, list) and any(x is stmt for x in L):
+                            blk = L
+                    if blk is not None:
+                        k = [j for j, x in enumerate(blk) if x is stmt][0]
+                        nxt = blk[k + 1] if k + 1 < len(blk) else None
+                        if isinstance(nxt, ast.If) and not nxt.orelse and isinstance(nxt.test, ast.Compare) and len(nxt.test.ops) == 1 \
+                                and isinstance(nxt.test.ops[0], (ast.Eq, ast.GtE)) and txt(nxt.test.left) == local \
+                                and len(nxt.body) == 1 and isinstance(nxt.body[0], ast.Assign) and len(nxt.body[0].targets) == 1 \
+                                and txt(nxt.body[0].targets[0]) == local and isinstance(nxt.body[0].value, ast.Constant) \
+                                and nxt.body[0].value.value == 0:
+                            wrap_if = txt(nxt.test.comparators[0])
             flows.append((s, wrapped_mod, wrap_if))
         if not flows:
             continue
